@@ -187,6 +187,9 @@ func ctypeHeader(cs Case) [][2]string {
 			return [][2]string{{"Content-Type", "application/x-www-form-urlencoded; charset=UTF-8"}}
 		case "charset-nospace":
 			return [][2]string{{"Content-Type", "application/x-www-form-urlencoded;charset=UTF-8"}}
+		case "charset-no-value":
+			// what follows the media type is not the processor's business: a parameter a strict parser rejects
+			return [][2]string{{"Content-Type", "application/x-www-form-urlencoded; charset"}}
 		case "case":
 			return [][2]string{{"content-type", "Application/X-WWW-Form-Urlencoded"}}
 		case "ctl":
@@ -202,6 +205,8 @@ func ctypeHeader(cs Case) [][2]string {
 			return [][2]string{{"Content-Type", "multipart/form-data; boundary=" + boundary}}
 		case "quoted":
 			return [][2]string{{"Content-Type", `multipart/form-data; boundary="` + boundary + `"`}}
+		case "charset-no-value":
+			return [][2]string{{"Content-Type", "multipart/form-data; boundary=" + boundary + "; charset"}}
 		case "case":
 			return [][2]string{{"content-type", "Multipart/Form-Data; Boundary=" + boundary}}
 		case "ctl":
